@@ -32,6 +32,10 @@ def run(facts, rep):
     d3_pop(facts, rep)
     d4_pages(facts, rep)
     d7_signed_sizes(facts, rep)
+    # D5 bounded-queue wake-ups: the rules live in C02 (D4/D5); the predicate rule is repeated here because a blocked push/pop
+    # that is never woken is also a C09 failure
+    from rules.C02 import bounded_queue_predicate
+    bounded_queue_predicate(facts, rep, 'D5')
 
 
 def witnesses(rep, tier):
